@@ -18,7 +18,7 @@ EXPLANATION = "bounded exhaustive scenario enumeration; accounting identities ch
 MIN_NONTRIVIAL_FRACTION = 0.4
 MAX_S = {"quick": 900, "thorough": 7200}
 
-FEATS = dict(c01.FEATS, wacc=1, sto_costs=1, extras=["mc", "ob", "dem", "plantfuel", "chp"])
+FEATS = dict(c01.FEATS, wacc=1, sto_costs=1, extras=["mc", "ob", "dem", "plantfuel", "chp", "chpml", "linked"])
 
 
 def build_cases(tier):
